@@ -9,7 +9,7 @@ CONSTANTS
   Only1On = TRUE
   WithRemote = TRUE
   Froms = {"addr"}
-  Kinds = {"pipe", "rpipe"}
+  Kinds = {"pipe", "rpipe", "qpipe"}
   ModOn = TRUE
   Lazy = TRUE
   Devs = {"NABody", "BodyPerScope", "ReplayRejectLeaks"}
